@@ -106,19 +106,58 @@ Proof.
   unfold get_sess in Hn. hsimpl. rewrite Hn. split; [now left|reflexivity].
 Qed.
 
+(* the messages that close the connection they are written to (is_closing), for a session in `room`:
+   a bye, and a disinvite from the room the session is in *)
+Definition closing_in (room : option (N * N)) (m : smsg) : bool :=
+  match m with
+  | SBye _ => true
+  | SDisinvite r => match room with Some k => N.eqb (snd k) r | None => false end
+  | _ => false
+  end.
+Lemma queue_closes_eq s : queue_closes s = existsb (closing_in (s_room s)) (s_pending s).
+Proof. reflexivity. Qed.
+Lemma upto_closing_cons room m l :
+  upto_closing room (m :: l) = if closing_in room m then [m] else m :: upto_closing room l.
+Proof. reflexivity. Qed.
+(* no closing message: the whole queue *)
+Lemma upto_closing_id room l : existsb (closing_in room) l = false -> upto_closing room l = l.
+Proof.
+  induction l as [|m l IH]; [reflexivity|]. cbn [existsb]. intros H. apply orb_false_iff in H as [H1 H2].
+  rewrite upto_closing_cons, H1, (IH H2). reflexivity.
+Qed.
+Lemma upto_closing_none s : queue_closes s = false -> upto_closing (s_room s) (s_pending s) = s_pending s.
+Proof. rewrite queue_closes_eq. apply upto_closing_id. Qed.
+Lemma upto_closing_incl room l m : In m (upto_closing room l) -> In m l.
+Proof.
+  induction l as [|x l IH]; [intros []|]. rewrite upto_closing_cons.
+  destruct (closing_in room x); intros [E|H]; [now left|destruct H|now left|right; now apply IH].
+Qed.
+(* otherwise: the prefix of the queue that ends with the first closing message *)
+Lemma upto_closing_spec room l : existsb (closing_in room) l = true ->
+  exists pre m post, l = pre ++ m :: post /\ upto_closing room l = pre ++ [m] /\
+                     closing_in room m = true /\ existsb (closing_in room) pre = false.
+Proof.
+  induction l as [|x l IH]; [discriminate|]. cbn [existsb]. intros H. rewrite upto_closing_cons.
+  destruct (closing_in room x) eqn:Hx.
+  - exists [], x, l. repeat split; auto.
+  - cbn [orb] in H. destruct (IH H) as (pre & m & post & E & U & Hm & Hp).
+    exists (x :: pre), m, post. cbn [app existsb]. rewrite Hx, Hp, U. repeat split; auto. now rewrite E.
+Qed.
+
 (* C06: resuming a disconnected session: same session id, then the queued messages in order, once;
    the session keeps its room; the queue is empty afterwards *)
 Lemma resume_flushes_queue h c cn n s :
   aget h.(h_conns) c = Some cn -> cn.(c_sess) = None -> get_sess h n = Some s ->
   is_virtual s.(s_kind) = false -> s.(s_conn) = None -> throttled h cn.(c_addr) ACT_RESUME = false ->
+  queue_closes s = false ->
   let '(h', outs) := step h (OHello c (HResume (IdPriv n))) in
   outs = ToConn c (SHello n (sess_userid h n s)) :: map (ToConn c) s.(s_pending) /\
   (exists s', get_sess h' n = Some s' /\ s'.(s_conn) = Some c /\ s'.(s_pending) = [] /\ s'.(s_room) = s.(s_room)) /\
   nmem n h'.(h_expired) = false.
 Proof.
-  intros Hc Hs Hn Hv Hcn Ht. cbn [step]. rewrite Hc, Hs. cbn [do_hello]. hsimpl.
+  intros Hc Hs Hn Hv Hcn Ht Hq. cbn [step]. rewrite Hc, Hs. cbn [do_hello]. hsimpl.
   assert (Ht' : throttled (set_conns h (aset (h_conns h) c (mkconn (c_addr cn) None (c_expect cn)))) (c_addr cn) ACT_RESUME = false) by exact Ht.
-  rewrite Ht'. unfold get_sess in *. hsimpl. rewrite Hn, Hv, Hcn. hsimpl.
+  rewrite Ht'. unfold get_sess in *. hsimpl. rewrite Hn, Hv, Hcn, Hq, (upto_closing_none s Hq). hsimpl.
   split; [reflexivity|]. split.
   - rewrite aget_aset_same. eexists. split; [reflexivity|]. hsimpl. auto.
   - rewrite nmem_nrem, N.eqb_refl. reflexivity.
